@@ -187,6 +187,9 @@ func checkC05(c *Check) {
 	L := c.L
 	c.Expl = "Structural clauses of 'every heap block is released exactly once', decided on the code generator and the C runtime without running either."
 	checkC05Exits(c, L)
+	checkC05Arms(c, L)
+	checkC05Regions(c, L)
+	checkC05Typestate(c, L)
 	checkC05C(c, L)
 }
 
@@ -261,5 +264,109 @@ func checkC05Exits(c *Check, L *Loaded) {
 			continue
 		}
 		r.Decide(len(bad) == 0, sc.key, token.NoPos, "frees exactly "+strings.Join(sc.want, ", "), strings.Join(uniq(bad), "; ")+" ("+sc.why+"): values owned by the left scopes leak, or values owned elsewhere are released twice")
+	}
+}
+
+// R5.2: arms of 'if T.IsPrimitive() {A} else {B}' that write the same number (>= 1) of destinations must write the same
+// destinations (store in one arm, deep copy in the other).
+func checkC05Arms(c *Check, L *Loaded) {
+	r := c.Rule("R5.2", "the primitive and the non-primitive arm of a generator branch initialise the same destinations", 4)
+	cp := L.ByRel["src/compiler"]
+	info := cp.TypesInfo
+	isPrimCall := func(e ast.Expr) bool {
+		e = ast.Unparen(e)
+		if u, ok := e.(*ast.UnaryExpr); ok && u.Op == token.NOT {
+			e = ast.Unparen(u.X)
+		}
+		call, ok := e.(*ast.CallExpr)
+		if !ok {
+			return false
+		}
+		sel, ok := call.Fun.(*ast.SelectorExpr)
+		return ok && sel.Sel.Name == "IsPrimitive"
+	}
+	dests := func(b ast.Node) []string {
+		var out []string
+		// locals defined once inside the arm stand for their initialiser
+		alias := map[types.Object]string{}
+		ast.Inspect(b, func(n ast.Node) bool {
+			if as, ok := n.(*ast.AssignStmt); ok && as.Tok == token.DEFINE && len(as.Lhs) == len(as.Rhs) {
+				for i, l := range as.Lhs {
+					if id, ok := l.(*ast.Ident); ok && info.Defs[id] != nil {
+						alias[info.Defs[id]] = types.ExprString(as.Rhs[i])
+					}
+				}
+			}
+			return true
+		})
+		str := func(e ast.Expr) string {
+			if id, ok := ast.Unparen(e).(*ast.Ident); ok {
+				if a, ok := alias[info.Uses[id]]; ok {
+					return a
+				}
+			}
+			return types.ExprString(e)
+		}
+		ast.Inspect(b, func(n ast.Node) bool {
+			if _, ok := n.(*ast.FuncLit); ok {
+				return false
+			}
+			call, ok := n.(*ast.CallExpr)
+			if !ok {
+				return true
+			}
+			fn := Callee(info, call)
+			name := ""
+			if fn != nil {
+				name = fn.Name()
+			}
+			switch {
+			case name == "NewStore" && len(call.Args) == 2:
+				out = append(out, str(call.Args[1]))
+			case name == "deepCopyInto" && len(call.Args) == 3:
+				out = append(out, str(call.Args[0]))
+			case name == "claimOrCopy" && len(call.Args) == 4:
+				out = append(out, str(call.Args[0]))
+			case name == "NewCall" && len(call.Args) >= 3:
+				if inner, ok := call.Args[0].(*ast.CallExpr); ok {
+					if s, ok := inner.Fun.(*ast.SelectorExpr); ok && s.Sel.Name == "DeepCopyFunc" {
+						out = append(out, str(call.Args[1]))
+					}
+				}
+			}
+			return true
+		})
+		return out
+	}
+	seen := map[string]int{}
+	for _, f := range cp.Syntax {
+		var encl string
+		ast.Inspect(f, func(n ast.Node) bool {
+			if fd, ok := n.(*ast.FuncDecl); ok {
+				encl = fd.Name.Name
+				if fd.Recv != nil && len(fd.Recv.List) > 0 {
+					encl = "(*compiler)." + encl
+				}
+			}
+			is, ok := n.(*ast.IfStmt)
+			if !ok || is.Else == nil || !isPrimCall(is.Cond) {
+				return true
+			}
+			a, b := dests(is.Body), dests(is.Else)
+			if len(a) == 0 || len(a) != len(b) {
+				return true // arms that write different numbers of destinations are not comparable
+			}
+			seen[encl]++
+			key := "compiler." + encl + "|IsPrimitive arms"
+			if seen[encl] > 1 {
+				key += fmt.Sprintf(" #%d", seen[encl])
+			}
+			if sameMultiset(a, b) {
+				r.OK(key, is.Pos(), "both arms initialise "+strings.Join(a, ", "))
+			} else {
+				r.Bad(key, is.Pos(), fmt.Sprintf("one arm initialises %v, the other %v: a destination is written twice (its first value leaks) and another stays uninitialised (later freed or read)", a, b))
+			}
+			return true
+		})
 	}
 }
